@@ -232,16 +232,17 @@ def lastLE (l : List Int) (x : Int) : Option Int :=
 def findCompdt (c : ZComp) (w : Int) (fold : Bool) : Option Int :=
   lastLE c.onsets (if c.diff < 0 && fold then w - c.diff else w)
 
+/-- one iteration of the selection loop: keep the strictly later onset -/
+def selStep (w : Int) (fold : Bool) (acc : Option (Int × Nat)) (ck : ZComp × Nat) : Option (Int × Nat) :=
+  match findCompdt ck.1 w fold, acc with
+  | some d, none => some (d, ck.2)
+  | some d, some (bd, bi) => if bd < d then some (d, ck.2) else some (bd, bi)
+  | none, acc => acc
+
 /-- the selection loop of `_find_comp` (uncached): index into `comps` -/
 def findCompIdx (comps : List ZComp) (w : Int) (fold : Bool) : Nat :=
   if comps.length == 1 then 0 else
-  let best : Option (Int × Nat) :=
-    comps.zipIdx.foldl (fun (acc : Option (Int × Nat)) (ck : ZComp × Nat) =>
-      match findCompdt ck.1 w fold, acc with
-      | some d, none => some (d, ck.2)
-      | some d, some (bd, bi) => if bd < d then some (d, ck.2) else some (bd, bi)
-      | none, acc => acc) none
-  match best with
+  match comps.zipIdx.foldl (selStep w fold) none with
   | some (_, i) => i
   | none =>
     match comps.findIdx? (fun c => !c.isdst) with
